@@ -120,19 +120,19 @@ theorem FV_step_ast {w : Ords} {sel : Bool} {es : List (Tid × Ev)} {s s' : St} 
   | pB3 k n o' hpc0 ho =>
     exact FV_ast h (by intro hc; rcases hc with hc | ⟨m, hc⟩ <;> cases hc) hpc (.inr rfl) (fun m hm => .inl hm)
       (by intro m hm; simp [pendN] at hm) (fun m => .inr rfl)
-  | eUnlPrev c orig pp x o' hpc0 ho =>
+  | eUnlPrev c orig pp x z o' hpc0 ho =>
     refine FV_ast h (np (by simp [hpc0, holdsW])) hpc (.inr rfl) (fun m hm => .inl hm) (by intro m hm; simp [pendN] at hm) ?_
     intro m
     by_cases hm : m = pp
     · subst hm; exact .inl rfl
     · exact .inr (next_setNext_ne s pp _ hm)
-  | eUnlHead c orig x o' hpc0 ho =>
+  | eUnlHead c orig x z o' hpc0 ho =>
     exact FV_ast h (np (by simp [hpc0, holdsW])) hpc (.inl rfl) (fun m hm => .inl hm) (by intro m hm; simp [pendN] at hm)
       (fun m => .inr rfl)
-  | eFixNext c orig p xx o' hpc0 ho =>
+  | eFixNext c orig p xx z o' hpc0 ho =>
     exact FV_ast h (by intro hc; rcases hc with hc | ⟨m, hc⟩ <;> cases hc) hpc (.inr rfl) (fun m hm => .inl hm)
       (by intro m hm; simp [pendN] at hm) (fun m => .inr (next_setBack s xx _ m))
-  | eFixTail c orig p o' hpc0 ho =>
+  | eFixTail c orig p z o' hpc0 ho =>
     exact FV_ast h (by intro hc; rcases hc with hc | ⟨m, hc⟩ <;> cases hc) hpc (.inr rfl) (fun m hm => .inl hm)
       (by intro m hm; simp [pendN] at hm) (fun m => .inr rfl)
 
